@@ -1,5 +1,6 @@
 """C13 fail-stop: enumerate every single fault position (k-th call of each syscall class, k-th project allocation)
 for small inputs on the asan build; sample for larger ones."""
+import tarfile
 import os, subprocess, hashlib, traceback, re
 from . import core, build, gentree, views
 from .gentree import Node
@@ -308,6 +309,32 @@ def stdout_case(arg):
     return oc
 
 
+def ext_record_archive(fmt, r):
+    """A small archive in which members are preceded by extension records: long names and long link targets (GNU 'L'/'K', PAX 'x'),
+    a symbolic and a hard link with both, a file with data behind its records."""
+    import io
+    buf = io.BytesIO()
+    with tarfile.open(fileobj=buf, mode="w", format=fmt) as tf:
+        def add(name, typ=tarfile.REGTYPE, data=b"", link="", pax=None):
+            ti = tarfile.TarInfo(name)
+            ti.type, ti.size, ti.linkname, ti.mode, ti.mtime = typ, len(data), link, 0o644, 1000000000
+            if pax:
+                ti.pax_headers = pax
+            tf.addfile(ti, io.BytesIO(data))
+        d = "d" * 40
+        long_file = "/".join([d, "n" * 70, "f" * 60])
+        add(d, tarfile.DIRTYPE)
+        add(d + "/" + "n" * 70, tarfile.DIRTYPE)
+        add("plain", data=b"p" * 700)
+        add(long_file, data=bytes(r.getrandbits(8) for _ in range(1500)))
+        add("sl-long-target", tarfile.SYMTYPE, link="t" * 150)
+        add(d + "/" + "s" * 120, tarfile.SYMTYPE, link="../" + "u" * 130)
+        add(d + "/" + "h" * 110, tarfile.LNKTYPE, link=long_file)
+        add("with-records", data=b"w" * 513, pax={"SCHILY.xattr.user.k": "v" * 40} if fmt == tarfile.PAX_FORMAT else None)
+        add("last", data=b"l" * 10)
+    return buf.getvalue()
+
+
 def trunc_case(arg):
     """Truncated framed input: tar cut inside an entry must be refused; truncated image must not give different output with exit 0."""
     idx, tier = arg
@@ -347,15 +374,38 @@ def trunc_case(arg):
                 cut = fpos + 512 + max(1, fsize // 2)
                 variants.append((cut, ["-E", fname.decode("latin1")] + t2s.args, "excluded-member"))
                 variants.append((cut, ["-r", "no-such-root-dir"] + t2s.args, "outside-new-root"))
-            for off, targs, what in variants:
-                sc = Scenario("tar2sqfs", "tar2sqfs", targs, stdin=tardata[:off], outpath=t2s.outpath, packer=True)
+            variants = [(off, targs, what, tardata) for off, targs, what in variants]
+            # archives whose members carry extension records (GNU 'L' / 'K', PAX 'x'): cut exactly at the record boundaries
+            # between the first record of a member and the end of its data - the archive ends in the middle of a member although
+            # the reader stands at a header position
+            for fmt, fname in ((tarfile.GNU_FORMAT, "gnu"), (tarfile.PAX_FORMAT, "pax")):
+                xt = ext_record_archive(fmt, r)
+                pos, chain = 0, False
+                cuts = []
+                while pos + 512 <= len(xt) and xt[pos:pos + 512] != bytes(512):
+                    size = int(xt[pos + 124:pos + 135].strip(b"\0 ") or b"0", 8)
+                    dlen = (size + 511) // 512 * 512
+                    ext = xt[pos + 156:pos + 157] in (b"x", b"L", b"K")
+                    if chain:
+                        cuts.append((pos, "before-" + ("record-" + xt[pos + 156:pos + 157].decode() if ext else "header-behind-records")))
+                    if dlen:
+                        cuts.append((pos + 512, "payload-of-" + xt[pos + 156:pos + 157].decode("latin1")))
+                        if dlen > 512:
+                            cuts.append((pos + 1024, "inside-payload-of-" + xt[pos + 156:pos + 157].decode("latin1")))
+                    chain = ext
+                    pos += 512 + dlen
+                for off, what in cuts:
+                    variants.append((off, t2s.args, "%s-%s" % (fname, what), xt))
+                    oc.inc("record_boundary_cuts")
+            for off, targs, what, tdata in variants:
+                sc = Scenario("tar2sqfs", "tar2sqfs", targs, stdin=tdata[:off], outpath=t2s.outpath, packer=True)
                 res = run_one(B, sc, work, {})
                 oc.inc("truncated_tar_runs")
                 oc.inc("truncated_tar_" + what)
                 if res.san:
                     oc.violate("tar2sqfs:truncated-input:crash:%s" % res.san, "cut at %d (%s)" % (off, what), {"stderr.txt": res.err})
                 elif res.rc == 0:
-                    oc.violate("tar2sqfs:truncated-input:accepted:%s" % what, "tar cut at byte %d of %d (inside %s) packed with exit 0" % (off, len(tardata), what))
+                    oc.violate("tar2sqfs:truncated-input:accepted:%s" % what, "tar cut at byte %d of %d (inside %s) packed with exit 0" % (off, len(tdata), what))
                 elif not res.err.strip():
                     oc.violate("tar2sqfs:truncated-input:silent-failure", "cut at %d (%s)" % (off, what))
             for off in inside[:40 if tier == "quick" else 400]:
